@@ -525,9 +525,14 @@ class World:
                             alt.append((('cut', d.name, kind, k), lambda d=d, kind=kind, k=k: self._cut(d, kind, k)))
             for name, fn in sorted(self.closers.items()):
                 alt.append((('close', name), lambda fn=fn: self._closer(fn)))
-        if not ev and alt and not self.ended:
-            # nothing left to do by default, but a fault could still strike here: make that a choice point
-            ev = [(('end',), self._end)]
+        if not ev:
+            if self.loop.has_ready():
+                return []  # the caller lets the loop go quiescent first and asks again
+            has_fault_alt = any(lab[0] in ('cut', 'close') for lab, _ in alt)
+            if has_fault_alt and not self.ended:
+                # nothing left to do by default, but a fault could still strike here: make that a choice point
+                ev = [(('end',), self._end)]
+                alt = [(lab, fn) for lab, fn in alt if lab[0] in ('cut', 'close')]
         if self.ended:
             return []
         return ev + alt if ev else []
